@@ -106,12 +106,16 @@ KeyGen ==
          \* tall trees (field nomodel): the traversal model is not evaluated (a jump over 2^16 indices is
          \* 2^16 Advance steps), the object is off-model from the start and only its observables are checked
          noModel == "nomodel" \in DOMAIN e /\ e.nomodel
+         \* keys whose descriptor names a hash function the library does not implement (ids 3..15; the
+         \* constructors accept them): C01 is stated for the three hash functions only, C02 for every key
+         \* object, so these objects are judged as counter automata and nothing else
+         cOnly == "counteronly" \in DOMAIN e /\ e.counteronly
          isDrift == ~noModel /\ (b # ClosedInit \/ e.idx # 0)
      IN /\ keys' = (e.k :> [idx |-> e.idx, bds |-> b, pkid |-> e.pkid, maxEmitted |-> -1, fam |-> e.fam,
-                            onModel |-> ~isDrift /\ ~noModel]) @@ keys
+                            onModel |-> ~isDrift /\ ~noModel, counterOnly |-> cOnly]) @@ keys
         /\ Note(isDrift)
         /\ Record(<<>>
-             \o When(~e.rootok, V("C01", "root in the public key is not the root of the full Merkle tree"))
+             \o When(~cOnly /\ ~e.rootok, V("C01", "root in the public key is not the root of the full Merkle tree"))
              \o FamCheckState(e.fam, e.idx, b))
         /\ fams' = FamPut(e.fam, e.idx, b, <<>>, "")
         /\ counts' = [counts EXCEPT !["KeyGen"] = @ + 1]
@@ -130,12 +134,12 @@ SignEv ==
         /\ Note(isDrift)
         /\ Record(<<>>
              \* ---- C01: the signature verifies, for exactly this message, with the true path
-             \o When(ok /\ Z(e.sig.auth) # AuthPath(e.sig.idx),
+             \o When(ok /\ ~pre.counterOnly /\ Z(e.sig.auth) # AuthPath(e.sig.idx),
                      V("C01", "authentication path in the signature is not the path of the index it carries"))
-             \o When(ok /\ RootFromPath(e.sig.idx, Z(e.sig.auth)) # ROOT,
+             \o When(ok /\ ~pre.counterOnly /\ RootFromPath(e.sig.idx, Z(e.sig.auth)) # ROOT,
                      V("C01", "root recomputed from the signature's authentication path is not the tree root"))
-             \o When(ok /\ e.sig.verify = "false", V("C01", "xmss.Verify rejects the signature the key returned"))
-             \o When(ok /\ e.sig.verifyOther = "true", V("C01", "xmss.Verify accepts the signature for a different message"))
+             \o When(ok /\ ~pre.counterOnly /\ e.sig.verify = "false", V("C01", "xmss.Verify rejects the signature the key returned"))
+             \o When(ok /\ ~pre.counterOnly /\ e.sig.verifyOther = "true", V("C01", "xmss.Verify accepts the signature for a different message"))
              \* ---- C02: counter automaton
              \o When(ok /\ e.sig.idx # pre.idx, V("C02", "index embedded in the signature is not the key's index"))
              \o When(ok /\ e.sig.idx <= pre.maxEmitted, V("C02", "index embedded in a signature is not larger than an earlier one"))
